@@ -191,6 +191,15 @@ class Machine(object):
                 regs[op["out"]] = m
             if owner is not None:
                 self.declared.append({"kind": "lmi", "owner": owner, "obj": m, "op": op})
+        elif k == "recons":
+            # the SAME constraint object registered once more (on the problem or on a function)
+            c = regs[op["k"]]
+            owner = op.get("owner", "pep")
+            if owner == "pep":
+                self.pep.add_constraint(c)
+            else:
+                regs[owner].add_constraint(c)
+            self.declared.append({"kind": "constraint", "owner": owner, "obj": c, "sense": c.equality_or_inequality, "op": op})
         elif k == "metric":
             e = regs[op["e"]]
             self.pep.set_performance_metric(e, name=op.get("name"))
@@ -543,6 +552,9 @@ def fam_method(rng, opts=None):
         b.feat("multi_metric")
     if opts.get("box") or rng.random() < 0.35:
         _box(b)
+    if b.conslist and rng.random() < 0.12:
+        b.emit({"op": "recons", "k": b.pick(b.conslist), "owner": "pep" if rng.random() < 0.5 else f1})
+        b.feat("constraint_registered_twice")
     # optional extras: user constraint / LMI
     r = rng.random()
     if r < 0.25:
@@ -778,6 +790,9 @@ def fam_soup(rng, opts=None):
                b.expr(_rand_expr_terms(b, allow_const=True)), owner=owner,
                name=b.pick([None, None, "uc%d" % b.n]))
         b.feat("user_constraint")
+    if b.conslist and rng.random() < 0.25:
+        b.emit({"op": "recons", "k": b.pick(b.conslist), "owner": "pep" if rng.random() < 0.5 else b.pick(b.funcs)[0]})
+        b.feat("constraint_registered_twice")
     nl = b.pick([0, 0, 1, 1, 2])
     for _ in range(nl):
         owner = "pep" if rng.random() < 0.6 else b.pick(b.funcs)[0]
